@@ -12,7 +12,10 @@
                    (scoping of variables [ground_wf_b] with tau read off the action and QT = inhabited types; type
                    table consistent with the object lists [tytab_ok_b]; object-valued fluents hold objects of their type
                    [state_typed_b]); coverage information, not a failure
-   bit 12 (4096) : is_applicable differs from the grounded model's applicability verdict *)
+   bit 12 (4096) : is_applicable differs from the grounded model's applicability verdict
+   bit 13 (8192) : the grounded action evaluated with STRICT quantifiers is applicable although the strict documented
+                   step is not: by C01_grounded_strict_refines_semantic (contrapositive; when bits 6, 7, 11 are clear and
+                   the effects are well typed) a read of a fluent without value was simplified away *)
 From Coq Require Import List ZArith NArith QArith Qcanon Bool.
 Import ListNotations.
 Require Import UPV.Core.Expr UPV.Core.Eval UPV.Core.Interp UPV.Planning.Problem UPV.Planning.Sem UPV.Planning.Ground
@@ -55,5 +58,7 @@ Definition codeg (T : tytab) (P : problem) (c : case) : N :=
        (if ground_fuel_ok T P a args then 0 else 512) +
        (if ground_raises T P a args then 1024 else 0) +
        (if ground_wf_b (tau_of a) (qt_of P) a && tytab_ok_b T P && state_typed_b P (c_state c) then 0 else 2048) +
-       (if Bool.eqb (c_isapp c) (sim_is_applicable_grounded true T P s a args) then 0 else 4096))%N
+       (if Bool.eqb (c_isapp c) (sim_is_applicable_grounded true T P s a args) then 0 else 4096) +
+       (match sim_apply_grounded false T P s a args, spec_step false P s a args with
+        | Some _, None => 8192 | _, _ => 0 end))%N
   end.
